@@ -44,14 +44,18 @@ def n_runs(tier):
 
 
 def shrink_hint(plan):
-    return ["script", "queries"]
+    return ["script", "queries", "sessions"]
 
 
 def count_ops(plan):
+    if plan["mode"] == "defcfg":
+        return sum(c02.count_ops({"script": x["script"]}) for x in plan["sessions"])
     return c02.count_ops(plan) if plan["mode"] == "run" else len(plan["queries"])
 
 
 def sample_view(plan):
+    if plan["mode"] == "defcfg":
+        return {"mode": "defcfg", "sessions": [{"config": x["config"], "ops": c02.count_ops({"script": x["script"]})} for x in plan["sessions"]]}
     if plan["mode"] == "run":
         v = c02.sample_view(dict(plan, k=0, filter="fixture"))
         v.update({k: plan[k] for k in ("filter", "allow")})
@@ -75,6 +79,17 @@ def gen(rng, index, tier):
     script = D.gen_script(ctx, None, kn["call_depth"], top=True)
     for a in script:
         a["catch"] = True
+    if rng.random() < 0.12:
+        # a long-lived process: several `with monkeytype.trace():` sessions (no explicit config); between them the user's
+        # monkeytype_config module becomes importable / is replaced / goes away again
+        sessions = []
+        for _ in range(rng.choice([2, 3, 4])):
+            ctx = D.Ctx(rng, spec, dict(kn, aio_p=0))
+            sc = D.gen_script(ctx, None, kn["call_depth"], top=True)
+            for a in sc:
+                a["catch"] = True
+            sessions.append({"script": sc, "config": rng.choice(["absent", "custom", "custom", "custom2"]), "subset_seed": rng.getrandbits(32)})
+        return {"mode": "defcfg", "prog": spec, "sessions": sessions, "script": sessions[0]["script"]}
     flt = rng.choice(["default", "default", "allow", "allow", "custom", "custom"])
     allow = None
     if flt == "allow":
@@ -680,7 +695,131 @@ def execute_layout(plan):
         shutil.rmtree(workdir, ignore_errors=True)
 
 
+def execute_defcfg(plan):
+    """Sessions entered through monkeytype.trace() without a config: each must use the configuration that
+    get_default_config() finds *at that moment* - the user's monkeytype_config.CONFIG if importable, else DefaultConfig."""
+    import gc
+    import random
+    import monkeytype
+    import monkeytype.config as MC
+    from monkeytype.config import Config
+    from monkeytype.db.base import CallTraceStoreLogger
+    from monkeytype.db.sqlite import SQLiteStore
+    from monkeytype.typing import get_type
+
+    V = []
+    probes = collections.Counter()
+    gc.collect()
+    workdir = E.new_workdir()
+    root = os.path.join(workdir, "src")
+    os.makedirs(root)
+    lp = P.load(plan["prog"], root)
+    old_env = {k: os.environ.get(k) for k in ("MT_DB_PATH", "MONKEYTYPE_TRACE_MODULES")}
+    os.environ["MT_DB_PATH"] = os.path.join(workdir, "default.sqlite3")
+    os.environ.pop("MONKEYTYPE_TRACE_MODULES", None)
+    MC.default_code_filter.cache_clear()
+    evaluated = 0
+    log = []
+    try:
+        def make_custom(tag, subset_seed):
+            srng = random.Random(subset_seed)
+            adm = {fid for fid in sorted(lp.funcs) if srng.random() < 0.6}
+            codes = {id(lp.code_objs[fid]) for fid in adm if fid in lp.code_objs}
+            box = []
+            db = os.path.join(workdir, tag + ".sqlite3")
+
+            class UserConfig(Config):
+                def trace_store(self):
+                    return SQLiteStore.make_store(db)
+
+                def trace_logger(self):
+                    lg = E.TeeStoreLogger(CallTraceStoreLogger(self.trace_store()), None)
+                    box.append(lg)
+                    return lg
+
+                def code_filter(self):
+                    return lambda code, _c=codes: id(code) in _c
+
+            return UserConfig(), adm, box, db
+
+        def distinct_rows(path):
+            return {(r[1], r[2]) for r in E.raw_rows(path)}
+
+        for si, ses in enumerate(plan["sessions"]):
+            kind = ses["config"]
+            sys.modules.pop("monkeytype_config", None)
+            adm = box = None
+            if kind != "absent":
+                cfg, adm, box, cdb = make_custom(kind + str(si), ses["subset_seed"])
+                m = types.ModuleType("monkeytype_config")
+                m.CONFIG = cfg
+                sys.modules["monkeytype_config"] = m
+            gc.collect()
+            rt.reset()
+            D.get_driver()
+            mat = D.Mat(lp)
+            top = mat.script(ses["script"])
+            before_default = distinct_rows(os.environ["MT_DB_PATH"])
+            exc = None
+            try:
+                with monkeytype.trace():
+                    D.run_top(top)
+            except Exception as e:   # noqa
+                exc = repr(e)
+            finally:
+                sys.setprofile(None)
+            J = list(rt.J)
+            D.finish_handles()
+            after_default = distinct_rows(os.environ["MT_DB_PATH"])
+            calls, order = TT.parse_journal(J)
+            done = [c for c in order if c.fid != 0 and c.fid in lp.code_objs and not (c.at_yield and c.end == "X") and TT.definite(lp, lp.funcs[c.fid])]
+            new_default = after_default - before_default
+            evaluated += 1
+            site = {"session": si, "config_in_effect": kind, "earlier": [x["config"] for x in plan["sessions"][:si]]}
+            log.append([si, kind, exc is not None, len(done), sorted(new_default), len(box[0].logs) if box else None])
+            if exc is not None:
+                V.append({"clause": "C17.all-admitted", "cause": None, "site": site, "msg": "monkeytype.trace() failed: " + exc})
+                continue
+            if kind == "absent":
+                # DefaultConfig: every completed resolvable fixture call (real files outside the library roots) is stored in the default database
+                want = {(lp.spec["pkg"] + "." + lp.funcs[c.fid]["module"], E.qualname_of(lp, lp.funcs[c.fid])) for c in done}
+                lost = want - after_default
+                if lost:
+                    V.append({"clause": "C17.all-admitted", "cause": None, "site": dict(site, missing=sorted(lost)[:3]),
+                              "msg": "no user configuration is importable, yet %d traced functions did not reach the default store (e.g. %r)" % (len(lost), sorted(lost)[:1])})
+            else:
+                lg = box[0] if box else None
+                if new_default:
+                    V.append({"clause": "C17.only-admitted", "cause": None, "site": dict(site, rows=sorted(new_default)[:3]),
+                              "msg": "monkeytype_config.CONFIG is importable, yet this session's calls were recorded through the default configuration: %r" % (sorted(new_default)[:2],)})
+                if lg is None:
+                    V.append({"clause": "C17.all-admitted", "cause": None, "site": site, "msg": "monkeytype_config.CONFIG is importable but its trace_logger() was never asked for"})
+                else:
+                    TVs, ev, info, calls2, comps, matched = TT.check(lp, J, lg.logs, 0, get_type, prefix="C17", admitted=lambda fid, _a=adm: fid in _a)
+                    evaluated += len(comps)
+                    for v in TVs:
+                        if v["clause"] == "C17.once":
+                            v["clause"] = "C17.all-admitted" if "was not logged" in v["msg"] else "C17.only-admitted"
+                            v["site"] = dict(v["site"], **site)
+                            V.append(v)
+            probes["session through monkeytype.trace() with config %s after %s" % (kind, plan["sessions"][si - 1]["config"] if si else "nothing")] += 1
+        return {"violations": V, "digest": R.digest(log), "sig": R.digest([[x["config"] for x in plan["sessions"]]]), "nontrivial": evaluated > 0,
+                "evaluated": evaluated, "faults": {"config_change_between_sessions": len(plan["sessions"]) - 1}, "probes": dict(probes)}
+    finally:
+        sys.modules.pop("monkeytype_config", None)
+        for k, v in old_env.items():
+            if v is None:
+                os.environ.pop(k, None)
+            else:
+                os.environ[k] = v
+        MC.default_code_filter.cache_clear()
+        P.unload(lp)
+        shutil.rmtree(workdir, ignore_errors=True)
+
+
 def execute(plan):
     if plan["mode"] == "run":
         return execute_run(plan)
+    if plan["mode"] == "defcfg":
+        return execute_defcfg(plan)
     return execute_layout(plan)
